@@ -302,6 +302,68 @@ def check_returns(chk):
     chk.floor("G-RET helpers", n, 20)
 
 
+SCAN_ALGOS = {"find_if", "find_if_not", "all_of", "any_of", "none_of", "find", "count_if", "count", "adjacent_find", "search", "mismatch"}
+
+
+def check_scans(chk):
+    """G-SCAN: a predicate of the validators that classifies a string / collection parameter by scanning it with a std
+    range algorithm must scan all of it: the range is exactly [begin(p), end(p)).  A range that starts later is
+    accepted only if the skipped front element is classified separately by a dominating test that applies one of the
+    scan's own classifiers to it (e.g. `isalpha(name[0])` before scanning from the second character); otherwise the
+    skipped positions accept anything (an invalid first character passes `is_sbe_symbolic_name`)."""
+    f = gen.facts()
+    n = 0
+    for fn in gen.sbeppc_functions(f):
+        if (fn.get("ret") or "").replace("const ", "") != "bool":
+            continue
+        owner = short_fn(fn)
+        if not any(owner.startswith(c) for c in ("sbe_schema_validator::", "sbe_schema_cpp_validator::", "utils::")):
+            continue
+        params = {p["name"] for p in fn.get("params") or [] if p.get("name")}
+        par = None
+        for x in walk(fn["body"]):
+            c = x.get("callee") or {}
+            if c.get("name") not in SCAN_ALGOS or not (c.get("base") or "").startswith("std::"):
+                continue
+            args = x.get("args") or []
+            if len(args) < 2:
+                continue
+            a0, a1 = gen.expr_text(args[0], 0, fn), gen.expr_text(args[1], 0, fn)
+            m = re.search(r"c?begin\((\w+)\)|(\w+)\.c?begin\(\)", a0)
+            if not m:
+                continue
+            p = m.group(1) or m.group(2)
+            if p not in params:
+                continue
+            n += 1
+            key = "scan:%s:%s" % (owner, c.get("name"))
+            where = "%s:%s" % (rel(fn["file"]), x.get("l"))
+            whole0 = re.fullmatch(r"\(?c?begin\(%s\)\)?|\(?%s\.c?begin\(\)\)?" % (p, p), a0) is not None
+            whole1 = re.fullmatch(r"\(?c?end\(%s\)\)?|\(?%s\.c?end\(\)\)?" % (p, p), a1) is not None
+            if whole0 and whole1:
+                chk.ok("G-SCAN", key + "#%s" % x.get("l"), {"where": where, "range": "[%s, %s)" % (a0, a1)}, nontrivial=True)
+                continue
+            # classifiers the scan applies (callees inside the predicate argument)
+            classifiers = set()
+            for a in args[2:]:
+                for y in walk(a):
+                    cn = (y.get("callee") or {}).get("name")
+                    if cn:
+                        classifiers.add(cn)
+            par = par or gen.parents(fn)
+            conds = [(gen.expr_text(cn, 0, fn), pol) for cn, pol in gen.dominating_conditions(fn, x, par)]
+            front = [t for t, pol in conds if re.search(r"%s\[0\]|%s\.front\(\)|\*c?begin\(%s\)" % (p, p, p), t)]
+            covered = any(any((cl + "(") in t for cl in classifiers if cl not in ("operator()", "operator==")) for t in front)
+            if whole1 and covered:
+                chk.ok("G-SCAN", key + "#%s" % x.get("l"), {"where": where, "range": "[%s, %s)" % (a0, a1), "front_classified_by": front[:2]}, nontrivial=True)
+            else:
+                chk.violation("G-SCAN", key, where,
+                              "%s scans only [%s, %s) of `%s`; the skipped positions are tested by {%s}, none of which applies the "
+                              "scan's classifiers %s: they accept anything" % (owner, a0, a1, p, "; ".join(front) or "nothing", sorted(classifiers)[:5]))
+    chk.floor("G-SCAN predicates", n, 1)
+    return n
+
+
 def extract(f=None):
     gen.SHOW_TARGS = True
     try:
